@@ -9,7 +9,7 @@ use crate::ir::declarations::{Declaration, Declarations};
 use crate::ir::degree_meta::{DegreeEnvironment, Degree, DegreeRange};
 use crate::ir::value_meta::ValueEnvironment;
 use crate::ir::variable_meta::VariableMeta;
-use crate::ir::{VariableName, VariableType, SignalType};
+use crate::ir::{Statement, VariableName, VariableType, SignalType};
 use crate::ssa::dominator_tree::DominatorTree;
 use crate::ssa::errors::SSAResult;
 use crate::ssa::{insert_phi_statements, insert_ssa_variables};
@@ -458,6 +458,25 @@ impl Cfg {
             } else {
                 // For templates, the parameters are constants.
                 env.set_degree(param, &Constant.into());
+            }
+        }
+        // Local variables which are declared but never assigned are default
+        // initialized to 0 by Circom. In particular, this is the degree of an
+        // array before the first element is assigned.
+        let assigned = self
+            .iter()
+            .flat_map(|basic_block| basic_block.iter())
+            .filter_map(|stmt| match stmt {
+                Statement::Substitution { var, .. } => Some(var.clone()),
+                _ => None,
+            })
+            .collect::<HashSet<_>>();
+        for (name, declaration) in self.declarations.iter() {
+            if matches!(declaration.variable_type(), VariableType::Local)
+                && !assigned.contains(name)
+                && !self.parameters.contains(name)
+            {
+                env.set_degree(name, &Constant.into());
             }
         }
         let mut rerun = true;
